@@ -530,6 +530,12 @@ def race_probe(pid, spec, scratch, seed, args):
     summ = {}
     if os.path.exists(os.path.join(scratch, "race.json")):
         summ = json.load(open(os.path.join(scratch, "race.json")))
+    fatal = re.search(r"fatal error: concurrent map [a-z ]+", p.stdout or "")
+    if fatal and not logs:
+        # the runtime's own detector (unsynchronised map access) aborts the process before the race detector reports
+        lp = os.path.join(scratch, "race.log.fatal")
+        open(lp, "w").write((p.stdout or "")[:20000])
+        logs = [lp]
     if p.returncode == 66 or logs:
         os.makedirs(os.path.join(VERIF, "replays"), exist_ok=True)
         path = os.path.join(VERIF, "replays", "%s-race-%d.json" % (pid, int(seed)))
